@@ -247,6 +247,46 @@ pub fn run(tier: &Tier) -> i32 {
         })
     });
 
+    // CMPS / SCAS set the flags of a subtraction: every pair of byte elements, and word elements in 8
+    // fixed relations for every 16-bit x (single step, both directions)
+    {
+        let wrel = crate::lattice::w16_relations();
+        let jobs: Vec<(StrOp, W, bool)> = [StrOp::Cmps, StrOp::Scas].iter().flat_map(|op| [(*op, W::B, false), (*op, W::B, true), (*op, W::W, false), (*op, W::W, true)]).collect();
+        jobs.par_iter().for_each(|(op, w, df)| {
+            let i = Instr::Str(None, *op, *w);
+            let site = i.shape();
+            let pairs: Vec<(u32, u32)> = if *w == W::B { (0..65536u32).map(|k| (k >> 8, k & 0xFF)).collect() } else { wrel.clone() };
+            pairs.par_chunks(8192).for_each(|chunk| {
+                with_worker(|wk| {
+                    let mut p = match prepare(&i) {
+                        Ok(p) => p,
+                        Err(e) => {
+                            c.block(format!("{}: {:?}", site, e));
+                            return;
+                        }
+                    };
+                    for (a, b) in chunk.iter() {
+                        let mut pre = RefM { r: Regs::distinct(0x2B), m: SMem::new(0), call_stack: vec![] };
+                        pre.r.flag = 0xF000 | if *df { DF } else { 0 } | ((*a as u16) & 1);
+                        pre.r.ds = 0x0100;
+                        pre.r.es = 0x0200;
+                        pre.r.si = 0x0010;
+                        pre.r.di = 0x0020;
+                        pre.r.ax = *a as u16;
+                        if *op == StrOp::Cmps {
+                            put(&mut pre, 0x0100, 0x0010, *w, *a);
+                        }
+                        put(&mut pre, 0x0200, 0x0020, *w, *b);
+                        // (CMPS / SCAS write no memory: audited per batch instead of after every execution)
+                        wk.case(rep, c, &mut p, &pre, &site, &[("a", *a as i64), ("b", *b as i64), ("w", w.bits() as i64)], (*a + *b) as u64, false);
+                    }
+                    wk.audit(rep, &p, &site);
+                    wk.flush(c);
+                })
+            });
+        });
+    }
+
     // CLI tier: the driver's REPEAT branch, observed through print mem / print reg
     ensure_bin();
     let data: Vec<DataDef> = [1, 2, 3, 4, 5, 6, 7, 8, 1, 2, 3, 9, 5, 6, 7, 8].iter().map(|v| b::db(None, *v)).collect();
@@ -307,7 +347,7 @@ pub fn run(tier: &Tier) -> i32 {
     };
     let mut cov = Coverage::default();
     cov.exhaustive = true;
-    cov.rule = format!("all 32 string/REP spellings of syntax.md x both cases, assembled by the real Preprocessor; the emitted line is re-issued to the real Interpreter exactly as the driver does until it stops answering REPEAT; for every CX in 0..={} (plus spot values), DF in {{0,1}}, 7 (DS,ES) pairs incl. wrap at 1 MB, aliasing segments, segments whose bits overlap the pointer bits, both in the last paragraph, 4-16 (SI,DI) placements incl. overlap by 0,1,2,3 bytes in both directions and crossing 0xFFFF, and for CMPS/SCAS every position of the first terminating element (and none) x initial ZF; final state (registers, flags, whole memory) compared with the whole-instruction reference, and every REPEAT answer must decrement CX by exactly one; 8 programs through the CLI binary Histories: every sequence of up to 3 (thorough 4) instructions over the property's instructions plus a 21-instruction context alphabet (register, memory, stack and flag traffic, data-label operands, DS/ES loaded by pop and by mov), with at least one of the property's instructions, as ONE program on ONE machine and ONE Interpreter object from 3 initial states, compared with the reference after every step (whole memory on every 16th run)", maxcx);
+    cov.rule = format!("all 32 string/REP spellings of syntax.md x both cases, assembled by the real Preprocessor; the emitted line is re-issued to the real Interpreter exactly as the driver does until it stops answering REPEAT; for every CX in 0..={} (plus spot values), DF in {{0,1}}, 7 (DS,ES) pairs incl. wrap at 1 MB, aliasing segments, segments whose bits overlap the pointer bits, both in the last paragraph, 4-16 (SI,DI) placements incl. overlap by 0,1,2,3 bytes in both directions and crossing 0xFFFF, and for CMPS/SCAS every position of the first terminating element (and none) x initial ZF; final state (registers, flags, whole memory) compared with the whole-instruction reference; CMPS/SCAS single steps for every pair of byte elements and for word elements in 8 fixed relations for every 16-bit x; and every REPEAT answer must decrement CX by exactly one; 8 programs through the CLI binary Histories: every sequence of up to 3 (thorough 4) instructions over the property's instructions plus a 21-instruction context alphabet (register, memory, stack and flag traffic, data-label operands, DS/ES loaded by pop and by mov), with at least one of the property's instructions, as ONE program on ONE machine and ONE Interpreter object from 3 initial states, compared with the reference after every step (whole memory on every 16th run)", maxcx);
     cov.bounds = json!({"max_cx_exhaustive": maxcx, "segment_pairs": 7, "sequence_depth": seq_depth, "sequences": seq.sequences, "sequence_steps": seq.steps, "sequence_whole_memory_audits": seq.audits, "tier": tier.name()});
     cov.assumptions = common_assumptions();
     cov.cli_runs = CLI_RUNS.load(Ordering::Relaxed);
